@@ -132,13 +132,25 @@ def rule_mux(ctx: Ctx) -> None:
               "setdefault", "re-adding a source can drop its prefetched event", key_text="mux add")
     pk = ctx.func(f"{MX}.peek_next_event_dt")
     src = ast.unparse(pk.node)
-    ctx.check("self._prefetch()" in src and "min(map(lambda evnt: evnt.when, prefetched_events))" in src, "C12.3",
+    mins = [c for c in A.func_calls(pk, shallow=False) if A.call_name(c) == "min"]
+    from .. import norm as N
+    min_ok = any(".when" in N.canon(N.expand(pk, c)) and "_prefetched_events" in N.canon(N.expand(pk, c)) for c in mins)
+    pf_first = any((A.call_name(c) or "") == "self._prefetch" for c in A.func_calls(pk)) and (not mins or min(
+        A.seq(c) for c in A.func_calls(pk) if (A.call_name(c) or "") == "self._prefetch") < min(A.seq(c) for c in mins))
+    ctx.check(pf_first and min_ok, "C12.3",
               "the next time is the minimum over freshly prefetched events", pk, pk.node, "prefetch; min(when)", "peek_next_event_dt changed",
               key_text="peek min")
     pf = ctx.func(f"{MX}._prefetch")
-    src = ast.unparse(pf.node)
-    ctx.check("if event is None" in src and "self._prefetched_events[source] = event" in src, "C12.3", "prefetch polls only empty slots", pf, pf.node,
-              "ok", "_prefetch can overwrite a slot", key_text="prefetch")
+    comps = [n for n in ast.walk(pf.node) if isinstance(n, (ast.ListComp, ast.GeneratorExp, ast.SetComp))
+             and "_prefetched_events.items()" in ast.unparse(n.generators[0].iter)]
+    only_empty = False
+    if comps and isinstance(comps[0].generators[0].target, ast.Tuple):
+        valvar = comps[0].generators[0].target.elts[1].id
+        only_empty = [ast.unparse(i) for i in comps[0].generators[0].ifs] == [f"{valvar} is None"]
+    sts = [s_ for s_ in A.stores(pf) if isinstance(s_.target, ast.Subscript) and A.dotted(s_.target.value) == "self._prefetched_events"]
+    from_pop = bool(sts) and all(".pop()" in N.canon(N.expand(pf, s_.node.value)) and A.dotted(s_.target.slice) is not None for s_ in sts)
+    ctx.check(only_empty and from_pop, "C12.3", "prefetch polls only empty slots", pf, pf.node,
+              "sources with an empty slot are polled; the slot receives what the source returned", "_prefetch can overwrite a slot", key_text="prefetch")
     # each popped event is pushed exactly once with the handlers of its own source
     de = ctx.func(f"{BD}._dispatch_events")
     loops = [n for n in C.walk_shallow(de.node) if isinstance(n, ast.For)]
@@ -150,7 +162,8 @@ def rule_mux(ctx: Ctx) -> None:
     ctx.check(ok1, "C12.3", "each event of the pass is handed to the pool exactly once", de, pushes[0] if pushes else lp, "one push per event",
               f"{len(pushes)} pushes per event")
     if pushes:
-        txt = ast.unparse(pushes[0])
+        from .. import norm as N
+        txt = N.canon(N.expand(de, pushes[0]))
         ctx.check(f"event={ev}" in txt and f"self._event_handlers.get({sv}, [])" in txt and "self._dispatch_event(EventDispatch(" in txt, "C12.3",
                   "an event is dispatched to the handlers subscribed to its own source", de, pushes[0], "EventDispatch(event, handlers of its source)",
                   "event/handlers pairing changed")
@@ -182,7 +195,13 @@ def stage_analysis(ctx: Ctx):
     for n in C.walk_shallow(fn.node):
         if isinstance(n, ast.For) and isinstance(n.iter, (ast.Tuple, ast.List)) and isinstance(n.target, ast.Name):
             loopvars[n.target.id] = [ast.unparse(e) for e in n.iter.elts]
-    seq = sorted([(c.lineno, c.col_offset, stage) for c, prim, stage, aw in invocations])
+    g = ctx.cfg(fn)
+    order_idx = g.rpo()
+
+    def pos(c):
+        ns = g.nodes_for(c)
+        return min((order_idx.get(n, 10 ** 6) for n in ns), default=10 ** 6)
+    seq = sorted([(pos(c), c.col_offset, stage) for c, prim, stage, aw in invocations])
     for _, _, stage in seq:
         if stage in loopvars:
             for x in loopvars[stage]:
